@@ -68,5 +68,9 @@ Definition known_C06_ref_added_later_self (c : m1_case) : bool :=
 Definition known_C14_inline_fk (c : m1_case) : bool :=
   negb (forallb no_inline_fk (p_actions (new_plan_of c))).
 
+(* C06, inherited: the replayed baseline is ALREADY inconsistent because an earlier step hit a known
+   defect (a composite foreign key shrunk by DeleteColumn keeps all its ref_columns: arity mismatch) *)
+Definition known_C06_inherited_inconsistent_baseline (c : m1_case) : bool := negb (consistent (baseline_of c)).
+
 Definition model_closes_gap (c : m1_case) : bool := closes_gap (baseline_of c) (k_models c).
 Definition model_stepwise_ok (c : m1_case) : bool := plan_stepwise_ok (baseline_of c) (k_models c).
